@@ -20,6 +20,7 @@ RULE = (
     "ordering/nesting relations only where |a*(z0+z_alpha)| < 1 on both tails. W1: N in {1,2,3,5,10,50,200,500}; Gaussian, constant, lattice, "
     "skewed, outlier-laden, NaN-laden, integer dtype, dyadic; estimate at median/mean/outside/at a replicate/random; alpha scalar incl. 0.001..0.999 "
     "and arrays up to 3-d (quantile); Y up to 2-d. Non-trivial: >= 2 distinct finite replicates; distinct = hash of inputs."
+    " Build-phase additions: narrow integer and float32 replicates (tolerance in the replicates' own precision), pole cases a*(z0+z_alpha) >= 1, documented-default relation."
 )
 ASSUMPTIONS = ["finite or NaN replicates (no inf); a component without finite replicates has NaN limits", "alpha in (0,1); array alpha only with method quantile",
                "statistics.NormalDist and math.fsum are trusted"]
